@@ -2,12 +2,14 @@
 package main
 
 import (
+	"bytes"
 	"encoding/base64"
 	"encoding/json"
 	"fmt"
 	"io"
 	"log"
 	"os"
+	"sync"
 	"time"
 
 	"github.com/brocaar/lorawan"
@@ -53,8 +55,54 @@ var reused reuse.Receiver
 var nr *cq.RNG
 var theSet *cases.Set
 
+// accepted keeps some accepted frames for the concurrent pass
+var accepted [][]byte
+
+// concurrentDecode: many goroutines decode and re-encode distinct accepted frames in tight loops (a
+// gateway bridge handles several devices at once); every frame must come back byte for byte. The
+// sequential result of each frame is an ordinary, model-compared case.
+func concurrentDecode(s *cases.Set, rounds int) {
+	if len(accepted) < 16 {
+		return
+	}
+	var mu sync.Mutex
+	bad := map[string]string{}
+	var wg sync.WaitGroup
+	for g := 0; g < 8; g++ {
+		wg.Add(1)
+		go func(g int) {
+			defer wg.Done()
+			defer func() { _ = recover() }()
+			for k := 0; k < rounds; k++ {
+				b := accepted[(g+8*k)%len(accepted)]
+				var q lorawan.PHYPayload
+				if err := q.UnmarshalBinary(b); err != nil {
+					continue
+				}
+				re, err := q.MarshalBinary()
+				if err != nil || !bytes.Equal(re, b) {
+					mu.Lock()
+					if len(bad) < 10 {
+						bad[fmt.Sprintf("%x", b)] = fmt.Sprintf("%x", re)
+					}
+					mu.Unlock()
+				}
+			}
+		}(g)
+	}
+	wg.Wait()
+	for in, out := range bad {
+		s.Fail(cases.GoFail{Key: "concurrent-decode:" + in, What: "with 8 goroutines decoding distinct frames, this accepted frame re-encodes to " + out,
+			Replay: map[string]interface{}{"bytes": in, "goroutines": 8, "rounds": rounds}})
+	}
+	s.Extra["concurrent_decodes"] = 8 * rounds
+}
+
 func add(s *cases.Set, b []byte, kind string) {
 	q, o, ok := decode(b)
+	if ok && len(b) > 0 && b[0]&0x1c == 0 && len(accepted) < 512 { // reserved MHDR bits zero: the canonical ones
+		accepted = append(accepted, append([]byte{}, b...))
+	}
 	noise.Step(nr)
 	reused.Decode(s, nr, b, o)
 	// the same frame received as text (base64): UnmarshalText must give what UnmarshalBinary gives
@@ -229,6 +277,11 @@ func main() {
 	}
 	s.ReplayRemembered(nr.Intn, 3, func() { noise.Step(nr) })
 	s.ReplayConcurrently(8, 2, 60*time.Second)
+	if thorough {
+		concurrentDecode(s, 2000000)
+	} else {
+		concurrentDecode(s, 150000)
+	}
 	if err := s.Finish(); err != nil {
 		fmt.Fprintln(os.Stderr, err)
 		os.Exit(2)
